@@ -330,8 +330,10 @@ class Check:
                                         if not axioms and ok2 else "; ".join(axioms) or "unavailable"))
         return ok and ok2
 
-    def finish(self, level="proof", extra_assumptions=()):
+    def finish(self, level=None, extra_assumptions=()):
         cov = self.cov
+        if level is None:
+            level = "proof" if cov.get("theorems") else "exploration"
         cov["obligations"] = self.obligations
         cov["discharged"] = self.discharged
         cov.setdefault("checker_cmd", "make -C coq (coqc 8.16.1, full .vo) && coqc Properties/%s.v && coqc generated cases" % self.prop)
